@@ -29,8 +29,10 @@ func Equal(fg *FunctionGenerator) OperationMatrix {
 	m.Register(FloatTypeId, IntTypeId, func(_ funcGen.Stack[Value], a, b Value) (Value, error) {
 		return Bool(a.(Float) == Float(b.(Int))), nil
 	})
-	deepEqual := &operationMatrixDeepEqual{equal: m, ef: func(st funcGen.Stack[Value], a, b Value) (bool, error) {
-		eq, err := m.Calc(st, a, b)
+	deepEqual := &operationMatrixDeepEqual{equal: m}
+	// the items of lists and maps are compared by deepEqual itself, they may be lists or maps again
+	deepEqual.ef = func(st funcGen.Stack[Value], a, b Value) (bool, error) {
+		eq, err := deepEqual.Calc(st, a, b)
 		if err != nil {
 			return false, err
 		}
@@ -38,7 +40,7 @@ func Equal(fg *FunctionGenerator) OperationMatrix {
 			return bool(b), err
 		}
 		return false, fmt.Errorf("%v is not a bool", eq)
-	}}
+	}
 
 	ef := func(st funcGen.Stack[Value], a, b Value) (bool, error) {
 		eq, err := deepEqual.Calc(st, a, b)
